@@ -2,24 +2,45 @@
 """Prints the markdown table for DESIGN.md §8.5 from seeded/<id>/meta.json."""
 import json, glob, os
 rows = []
+per_round = {}
 for d in sorted(glob.glob('/verif/seeded/C*-*')):
     f = os.path.join(d, 'meta.json')
     if not os.path.exists(f):
         continue
     m = json.load(open(f))
     sid = os.path.basename(d)
-    what = m['what_breaks'].split('. ')[0].replace('|', '/')
-    if len(what) > 230:
-        what = what[:227] + '…'
+    what = m['what_breaks'].split('. ')[0].replace('|', '/').replace('\n', ' ')
+    if len(what) > 200:
+        what = what[:197] + '…'
     rules = []
     for p, reps in sorted(m.get('reports', {}).items()):
         rs = sorted({r.split('rule=')[1].split(' ')[0] for r in reps if 'rule=' in r})
-        rules.append(p + ': ' + ', '.join(rs) if rs else p)
+        rules.append(', '.join(rs) if rs else p)
     own = m['property'] in m.get('caught_by', [])
-    rows.append((sid, what, '; '.join(rules) if rules else '— (not caught)', 'yes' if own else ('other' if m.get('caught_by') else 'NO')))
-print('| seed | change (first sentence of the author\'s description) | reported by | own property |')
-print('|------|------|------|------|')
+    rnd = m.get('round', 0)
+    blind = ''
+    if 'reported_when_written' in m:
+        b = m['reported_when_written']
+        blind = 'own' if m['property'] in b else ('other: ' + ' '.join(b) if b else 'none')
+    rows.append((sid, rnd, what, '; '.join(rules) if rules else '— (not reported)', 'yes' if own else ('other' if m.get('caught_by') else 'NO'), blind))
+    pr = per_round.setdefault(rnd, {'n': 0, 'own': 0, 'any': 0, 'b_own': 0, 'b_any': 0, 'b_n': 0})
+    pr['n'] += 1
+    pr['own'] += own
+    pr['any'] += bool(m.get('caught_by'))
+    if 'reported_when_written' in m:
+        pr['b_n'] += 1
+        pr['b_own'] += m['property'] in m['reported_when_written']
+        pr['b_any'] += bool(m['reported_when_written'])
+print('| seed | round | change (first sentence of the author\'s description) | rules reporting it (final rule set) | own property | when written |')
+print('|------|------|------|------|------|------|')
 for r in rows:
-    print('| %s | %s | %s | %s |' % r)
-n = len(rows); own = sum(1 for r in rows if r[3] == 'yes'); oth = sum(1 for r in rows if r[3] == 'other'); no = sum(1 for r in rows if r[3] == 'NO')
-print('\n%d confirmed changes: %d reported by the check of their own property, %d only by another property\'s check, %d not reported.' % (n, own, oth, no))
+    print('| %s | %d | %s | %s | %s | %s |' % r)
+n = len(rows); own = sum(1 for r in rows if r[4] == 'yes'); oth = sum(1 for r in rows if r[4] == 'other'); no = sum(1 for r in rows if r[4] == 'NO')
+print('\n%d confirmed changes: %d reported by the check of their own property, %d only by another property\'s check, %d not reported (final rule set).\n' % (n, own, oth, no))
+print('| round | changes kept | own property (final) | any check (final) | own property when written | any check when written |')
+print('|------|------|------|------|------|------|')
+for rnd in sorted(per_round):
+    pr = per_round[rnd]
+    bw = ('%d/%d' % (pr['b_own'], pr['b_n'])) if pr['b_n'] else 'not measured blind'
+    ba = ('%d/%d' % (pr['b_any'], pr['b_n'])) if pr['b_n'] else ''
+    print('| %d | %d | %d | %d | %s | %s |' % (rnd, pr['n'], pr['own'], pr['any'], bw, ba))
